@@ -15,14 +15,23 @@ NA = {
 PARTIAL = "the quantifier contains 'programs': decided over all tapes, fault plans, driver schedules and probe histories the seeded search reaches on a stated program family (fixed catalogue + seeded compositions); the program family itself is sampled workload, not decided"
 
 CLAIMS = {
-    "C01": ("E1", "twin-module differential under seeded tapes and k-th-interaction fault plans", PARTIAL),
-    "C02": ("E1", "seeded history simulation; stream compared with the traced twin's binding history (M-py) through M-sel", PARTIAL),
+    "C01": ("E1", "twin-module differential (untouched twin vs instrumented twin) under seeded environment tapes, k-th-interaction fault plans, generator driving schedules and probe push/pop histories", PARTIAL),
+    "C02": ("E1", "seeded history simulation; probe stream compared with the traced twin's binding history (M-py) through the selector model M-sel, with faults putting bindings on exceptional paths", PARTIAL),
+    "C03": ("E1", "scheduler-produced call trees (tape-driven dispatcher actors: recursion, re-entry, raising calls); events compared with M-sel embeddings over the traced twin's live stacks", "decided over the call trees, tapes and fault plans the seeded search reaches on the dispatcher family A-D/M/S and seeded chain/sibling selectors up to depth 3"),
+    "C04": ("E1", "seeded activation orders of overriding and observing probes / overlays; call compared with the traced twin whose bindings are substituted by the model's bind hook", PARTIAL),
+    "C05": ("E1", "seeded lifecycle histories (non-LIFO global probes, blocks left by exception, failing completion) with M-life invariants after every operation", "decided over the operation histories the seeded search reaches (bounded length, 2-4 probes over the dispatcher family)"),
+    "C06": ("E1", "seeded control-flow tapes, faults at every environment interaction, generator next/send/throw/close/drop schedules and collector-driven finalisation; merged meta-event stream compared with the traced twin", "decided over the paths, driving sequences and collector schedules the seeded search reaches on the catalogue functions"),
+    "C07": ("E1", "scheduler-produced call trees incl. recursive and raising outermost calls; total records compared with M-sel total mode", PARTIAL),
+    "C08": ("E2", "thread-schedule simulation: real threads under a baton scheduler, pre-emption at line/opcode boundaries of the tooling and call-entry code (random, PCT, targeted), per-thread sequential model", "decided over the interleavings the seeded schedulers reach (pre-emption bound 3 quick / 5 thorough, 2-3 threads); a switch inside a C call is out of reach"),
+    "C09": ("E1", "seeded histories of overlay enter/leave, generator create/next/close/drop, collector runs and driver calls, at top level and inside an instrumented driver; events vs M-sel with suspended activations off the stack, handler collection vs M-life", "decided over the histories the seeded search reaches (1-2 generators at top level, 2 inside the driver actor)"),
+    "C12": ("E1", "seeded loop tapes over a small integer box; events and overrides compared with the unconditioned model stream filtered by arithmetic reference predicates", PARTIAL + "; the 'for all integers in the box' half is sampled, not enumerated; throttle is not modelled"),
+    "C13": ("E1", "seeded call sequences over a population of receivers (plain, subclass, value-equal, unhashable, decorated, nested class, property) with class-wide and object-bound probes activated in seeded order", "decided over the populations, probe histories and call sequences the seeded search reaches"),
+    "C14": ("E1", "seeded probe histories by name / by reference with the codefind clock (fast = heap scan, slow = cache) and the collector as scheduled operations; every function's reference re-resolved after every operation", "decided over the histories the seeded search reaches on the placement module (top-level, method, nested class, closure + its factory, decorated, namesakes)"),
+    "C16": ("E1", "seeded instrumentation configurations (all / some / none of the variables, supplied or not) x paths x faults; call compared with the traced twin with the model's declaration hook; ABSENT scan of every result, log entry and event", PARTIAL),
+    "C17": ("E1", "seeded pipeline histories (stages before / after activation, reductions, failing subscriber, failing completion, re-activation attempts, interpreter-exit hook) with per-stage completion and reduction oracles", "decided over the operation histories the seeded search reaches"),
 }
 
-PENDING = {
-    k: "check not built yet in this session (claimed in DESIGN.md; will move to checks)"
-    for k in ["C03", "C04", "C05", "C06", "C07", "C08", "C09", "C12", "C13", "C14", "C16", "C17"]
-}
+PENDING = {}
 
 
 def main():
